@@ -177,6 +177,21 @@ def seg_len_expr(segs) -> str:
     return "+".join([str(n)] + sorted(parts))
 
 
+def _is_all_but_last_16(stop: Term, field) -> bool:
+    """slice bound that keeps everything but the last 16 bytes of the field: -16, or (size read | len(field)) - 16.  The reader returns exactly
+    the size asked for or raises, and the 16-byte MAC was read from within the field, so the size is at least 16 and both spellings agree"""
+    stop = unsnap(stop)
+    if is_const(stop):
+        return cval(stop) == -16 and not isinstance(cval(stop), bool)
+    if stop.op == "bin" and stop.args[0] == "Sub" and is_const(unsnap(stop.args[2])) and cval(unsnap(stop.args[2])) == 16:
+        a = unsnap(stop.args[1])
+        if field.size is not None and a is unsnap(field.size):
+            return True
+        if a.op == "len" and unsnap(a.args[0]) is _field_term(field):
+            return True
+    return False
+
+
 def find_guards(events, pred, swallow=None, allow_extra=False):
     """guards one of whose terminating disjuncts satisfies pred(op, a, b).  A disjunct that is a conjunction
     `A and B` matches when one conjunct satisfies pred; the other conjuncts are extra path conditions of the
@@ -372,7 +387,7 @@ def reader_rules(m: Bf3Model, chk, pid, want=None):
                 if _is_bytes_of(em, x) and is_call_named(unsnap(y), "cmac"):
                     data, key, iv = mac_args(unsnap(y))
                     d = unsnap(data)
-                    cov = d.op == "slice" and unsnap(d.args[0]) is _field_term(en) and d.args[1] is NONE and is_const(d.args[2]) and cval(d.args[2]) == -16 and d.args[3] is NONE
+                    cov = d.op == "slice" and unsnap(d.args[0]) is _field_term(en) and d.args[1] is NONE and d.args[3] is NONE and _is_all_but_last_16(d.args[2], en)
                     if not cov:
                         why = "entry MAC is computed over %s, documented coverage is the whole entry before the MAC (entry[:-16])" % show(d, 4)
                         return False
@@ -498,7 +513,7 @@ def reader_rules(m: Bf3Model, chk, pid, want=None):
                     "MAC over exactly the stored payload bytes with the session key (IV default) is compared with the directory's payload MAC; mismatch raises whenever check_cmac is true", why9)
     # ---- R12 flows into the returned object
     if W("fields->object"):
-        news = [e for e in ev if e.kind == "new" and e.d["cls"].name == "Bf3Component"]
+        news = split_conditional_news([e for e in ev if e.kind == "new" and e.d["cls"].name == "Bf3Component"])
         de, pay = rb.field("declared"), rb.field("payload")
         tid = rb.field("tag_id")
         stores = [e for e in ev if e.kind == "setitem" and _is_int_of(tid, e.d["index"])]
@@ -543,6 +558,41 @@ def reader_rules(m: Bf3Model, chk, pid, want=None):
                 ok_al = True
         chk.require(okc and ok_al, P("fields->object"), BF3 + ".Bf3Component.__init__", "self.description/blob/actual_len = parameters", "%s:%d" % (ri.fi.file, ri.fi.lineno),
                     "constructor stores its parameters unchanged (actual_len falls back to len(blob) only when falsy)", "constructor does not store description/blob/actual_len parameters unchanged")
+
+
+class _ArmEvent:
+    """one arm of a construction whose arguments are conditional values under one condition: the construction as it happens when the condition is
+    true (false), with that condition among the enclosing tests"""
+    def __init__(self, e, cond, pol):
+        self.kind, self.uid, self.where, self.fn, self.node, self.stack = e.kind, e.uid, e.where, e.fn, e.node, e.stack
+        self.ctx = tuple(e.ctx) + (("if", cond, pol, -e.uid),)
+        self.facts = tuple(getattr(e, "facts", ()) or ()) + ((cond, pol),)
+
+        def pick(t):
+            u = unsnap(t)
+            if u.op == "phi" and unsnap(u.args[0]) is unsnap(cond):
+                return u.args[1] if pol else u.args[2]
+            if u is unsnap(cond) or (u.op == "truthy" and unsnap(u.args[0]) is unsnap(cond)):
+                return C(bool(pol))
+            return t
+
+        self.d = dict(e.d)
+        self.d["args"] = tuple(pick(a) for a in e.d["args"])
+        self.d["kwargs"] = {k: pick(v) for k, v in e.d["kwargs"].items()}
+        self.origin = e
+
+
+def split_conditional_news(news):
+    """Bf3Component(d, decrypt(p) if c else p, n, encrypt_by_session_key=c) is the two constructions of `if c: ...(d, decrypt(p), n, True) else: ...(d, p, n, False)`"""
+    out = []
+    for e in news:
+        conds = [unsnap(a).args[0] for a in list(e.d["args"]) + list(e.d["kwargs"].values()) if unsnap(a).op == "phi"]
+        conds = [c for i, c in enumerate(conds) if all(unsnap(c) is not unsnap(c2) for c2 in conds[:i])]
+        if len(conds) == 1 and conds[0].op in ("cmp", "truthy", "un", "and", "or", "isinst"):
+            out.extend([_ArmEvent(e, conds[0], True), _ArmEvent(e, conds[0], False)])
+        else:
+            out.append(e)
+    return out
 
 
 def _check_cmac_term(m: Bf3Model) -> Term:
@@ -1156,7 +1206,7 @@ def tag_compare_rules(m: Bf3Model, chk, pid):
     if not found:
         chk.fail(P("tag-compare-types"), BF3 + ".Bf3File.from_binary", "no comparison on the ENC tag", "", "the reader never inspects the ENC tag: encrypted components cannot be decrypted on read")
     # decrypt-on-read path: from_encrypted_raw_data(description, payload, declared, session_key)
-    news = [e for e in ev if e.kind == "new" and e.d["cls"].name == "Bf3Component"]
+    news = split_conditional_news([e for e in ev if e.kind == "new" and e.d["cls"].name == "Bf3Component"])
     dec = []
     for nw in news:
         args = list(nw.d["args"])
